@@ -38,7 +38,7 @@ CONSTANTS Devs,      \* subset of DevNames
           Kinds,     \* subset of {"atn", "cstn", "acct", "code", "vref"}
           Emit       \* TRUE: print every case as <<"CASE", json>>
 
-DevNames == {"NoRootCheck", "NoLinkCheck", "NoPathConsumed", "NoLastHash", "NoCodeHash", "NoAcctCodeHash", "StoreFirst",
+DevNames == {"NoRootCheck", "NoLinkCheck", "NoPathConsumed", "NoLastHash", "NoCodeHash", "NoAcctCodeHash", "NoAcctCodeHashIfEmpty", "StoreFirst",
              "LeafValueAsRef", "ShortPathPanics", "EmptyKeyPanics", "EmptyProofPutPanics"}
 ASSUME Devs \subseteq DevNames
 Dev(d) == d \in Devs
@@ -404,7 +404,10 @@ Validate(cc) ==
          [] cc.kind = "code" ->
               LET a == LookupAcc(root, cc.addr, ResSeqC(cc, cc.aproof)) IN
               IF ~IsOk(a) THEN a
-              ELSE IF ~Dev("NoAcctCodeHash") /\ a[2][3] # HashOf(cc, cc.kh) THEN Err("account state is invalid") ELSE a
+              \* code 0 plays the empty code (the account at key 000 is the account "without code"); deviation NoAcctCodeHashIfEmpty:
+              \* the comparison is skipped for such an account, so any code can be claimed for it (sweep mutant H2/15-C13)
+              ELSE IF ~Dev("NoAcctCodeHash") /\ ~(Dev("NoAcctCodeHashIfEmpty") /\ a[2][3] = <<"ch", 0>>) /\ a[2][3] # HashOf(cc, cc.kh)
+                   THEN Err("account state is invalid") ELSE a
          [] OTHER ->
               LET a == LookupAcc(root, cc.addr, ResSeqC(cc, cc.aproof)) IN
               IF ~IsOk(a) THEN a ELSE AcceptNode(a[2][2], cc.path, HashOf(cc, cc.kh), ResSeqC(cc, cc.proof))
